@@ -230,5 +230,14 @@ let () =
         let line = of_model line in
         let line = if m = "parse+s" then line else cut line in
         print_endline (line ^ of_model st)) (read_records ())
+  | _ :: "lit" :: kind :: _ ->
+    (* one literal candidate per record: the model's token line, a TAB, and the spec oracle's verdict
+       (0 = not a literal of that kind, otherwise the kind tag) *)
+    let oracle = match kind with
+      | "rune" -> oracle_rune | "string" -> oracle_string | "num" -> oracle_num
+      | _ -> failwith "lit <rune|string|num>" in
+    List.iter (fun r ->
+        let m = to_model r in
+        Printf.printf "%s\t%d\n" (of_model (run_tokens m)) (int_of_n (oracle m))) (read_records ())
   | _ :: "enum" :: args -> run_enum args
   | _ -> prerr_endline "usage: gm <tokens|enum ...>"; exit 2
